@@ -25,7 +25,41 @@ def unfold_spectra(T):
     return out
 
 
-def cut_decidable(spectra, thr):
+# relative width of the band around a cut that must be free of singular values of the matrices the MANDy sweeps really decompose
+# (mandy_spectra): it only has to cover rounding, 5 per cent is generous.  (Other users of cut_decidable keep a factor of 1000 on
+# either side around the unfolding spectra.)
+BAND = 0.05
+
+
+def mandy_factors(name, x, phi, add_one=True):
+    """mode-wise evaluation matrices of the MANDy transformed data tensor (coordinate major / function major)"""
+    x = np.asarray(x)
+    d, m = x.shape
+    if name == 'mandy_cm':
+        return [np.array([[float(f(x[i, j])) for j in range(m)] for f in phi]) for i in range(d)]
+    factors = []
+    for f in phi:
+        rows = [[float(f(x[i, j])) for j in range(m)] for i in range(d)]
+        if add_one:
+            rows = [[1.0] * m] + rows
+        factors.append(np.array(rows))
+    return factors
+
+
+def mandy_spectra(factors):
+    """singular values the sweeps behind MANDy actually cut: the left sweep orthonormalises core by core a train whose right part is not
+    orthonormal, so at mode k it sees the matrix of the products of the first k modes at the m snapshots (partial transformed data
+    matrices Psi_k, N_k x m); the last one is the transformed data matrix itself"""
+    out = []
+    m = factors[0].shape[1]
+    part = np.ones((1, m))
+    for f in factors:
+        part = np.einsum('aj,bj->abj', part, f).reshape(-1, m)
+        out.append(np.linalg.svd(part, compute_uv=False))
+    return out
+
+
+def cut_decidable(spectra, thr, band=None):
     """the relative cut must fall into a clear gap of every unfolding spectrum"""
     for s in spectra:
         if s.size == 0 or s[0] <= 0:
@@ -34,7 +68,9 @@ def cut_decidable(spectra, thr):
         if thr == 0:
             if rel[-1] < 1e-8:
                 return False
-        elif np.any((rel > thr * 1e-3) & (rel < thr * 1e3)):
+        elif band is not None and np.any((rel > thr * (1 - band)) & (rel < thr * (1 + band))):
+            return False
+        elif band is None and np.any((rel > thr * 1e-3) & (rel < thr * 1e3)):
             return False
     return True
 
@@ -72,8 +108,8 @@ class Mandy(ApiImmut):
             return
         T = product_tensor(factors)
         A = T.reshape(N, m)
-        spectra = unfold_spectra(T)
-        if not cut_decidable(spectra, thr):
+        spectra = mandy_spectra(factors)
+        if not cut_decidable(spectra, thr, band=BAND):
             c.skip('mandy_cut_not_in_spectral_gap')
             return
         s = spectra[-1]
